@@ -1,6 +1,280 @@
-"""krun — Kani side (weave, run, classify, replay). Filled in below."""
+#!/usr/bin/env python3
+"""krun — Kani side of the contract machinery (DESIGN.md §2.1 step 3, §2.4).
+
+A unit file (contracts/kani/<unit>.krs) is Rust text that is *appended* to one real source file of a
+scratch copy of /repo (child module => private items are reachable; nothing in the file is rewritten).
+Header lines:
+
+    //@ file src/aisle.rs
+    //@ lift parse 0 :: fn calc_span_lifted(input: &str, s: &str) -> Span     (X5: closure body extracted)
+    //@ native-table                       (K2/K3: run the real FractionLookupTable::new() natively, emit literal)
+    //@ harness name=<fn> tags=C03,C11 level=complete|bounded target=<real fn> [bound="..."] [timeout=600]
+
+Every harness is run as its own `cargo kani --harness` process.  FAILURE of a check => violation,
+replayed natively through Kani's concrete playback (real function, real panic).  Unwinding-assertion
+failures, timeouts, crashes => undecided.
+"""
+import concurrent.futures as cf
+import json
+import os
+import re
+import shlex
+import shutil
+import subprocess
+import time
+
+import vgen
+
+KANI_FLAGS = ["-Z", "function-contracts", "-Z", "stubbing"]
+MAX_PAR = int(os.environ.get("VERIF_KANI_PAR", "5"))
+
+
+def parse_unit(path):
+    txt = open(path).read()
+    meta = {"file": None, "lifts": [], "native_table": False, "harnesses": [], "text": txt}
+    for ln in txt.splitlines():
+        if not ln.startswith("//@"):
+            continue
+        w = ln[3:].strip()
+        if w.startswith("file "):
+            meta["file"] = w.split()[1]
+        elif w.startswith("lift "):
+            a, hdr = w[5:].split("::", 1)
+            fn, k = a.split()
+            meta["lifts"].append({"fn": fn, "k": int(k), "header": hdr.strip()})
+        elif w.startswith("native-table"):
+            meta["native_table"] = True
+        elif w.startswith("harness "):
+            kv = dict((m.group(1), m.group(2).strip('"')) for m in re.finditer(r'(\w+)=("[^"]*"|\S+)', w[8:]))
+            kv["tags"] = kv.get("tags", "").split(",")
+            kv["timeout"] = int(kv.get("timeout", "900"))
+            meta["harnesses"].append(kv)
+    return meta
+
+
+def env_offline(target_dir):
+    e = dict(os.environ)
+    e["CARGO_NET_OFFLINE"] = "true"
+    e["CARGO_TARGET_DIR"] = target_dir
+    return e
+
+
+def weave(root, unit, um, kdir, log):
+    """append the unit text (and lifted closures / native table) to the real file in kdir"""
+    rel = um["file"]
+    path = os.path.join(kdir, rel)
+    if not os.path.exists(path):
+        raise vgen.GenError(f"{rel} does not exist in the tree")
+    add = f"\n\n// ===== woven by /verif/check: contracts/kani/{unit}.krs =====\n"
+    for lf in um["lifts"]:
+        ix = vgen.index(kdir, rel)
+        it = vgen.find_item(ix, "fn", lf["fn"], rel)
+        if lf["k"] >= len(it["closures"]):
+            raise vgen.GenError(f"{rel}::{lf['fn']}: closure {lf['k']} not found")
+        c = it["closures"][lf["k"]]
+        data = ix["bytes"]
+        body = data[c["body"][0]:c["body"][1]].decode()
+        if not c["body_is_block"]:
+            body = "{ " + body + " }"
+        cur_lines = open(path).read().count("\n") + add.count("\n")
+        add += f"#[cfg(any(kani, verif_replay))]\n#[allow(dead_code)]\n{lf['header']} {body}\n"
+        # lines of the lifted body in the woven file -> lines of the closure body in the repository file
+        first_new = cur_lines + 3
+        first_old = vgen.line_of(data, c["body"][0])
+        um.setdefault("linemap", []).append((first_new, first_new + body.count("\n"), first_old))
+        log.append({"rule": "X5:closure-lift", "file": rel, "fn": lf["fn"], "line": vgen.line_of(data, c["span"][0]),
+                    "before": data[c["span"][0]:c["body"][0]].decode(), "after": lf["header"]})
+    add += um["text"]
+    with open(path, "a") as f:
+        f.write(add)
+    return path
+
+
+def native_table(kdir, target_dir):
+    """run the real FractionLookupTable::new() natively in the scratch copy and return the literal"""
+    path = os.path.join(kdir, "src/quantity.rs")
+    with open(path, "a") as f:
+        f.write('''
+#[cfg(test)]
+mod verif_dump_table {
+    #[test]
+    fn verif_dump_table() {
+        let t = super::FractionLookupTable::new();
+        let s: Vec<String> = t.0.iter().map(|(x, (n, d))| format!("({x},({n},{d}))")).collect();
+        println!("VERIF_TABLE[{}]", s.join(","));
+    }
+}
+''')
+    p = subprocess.run(["cargo", "test", "--offline", "--lib", "-p", "cooklang", "verif_dump_table", "--", "--nocapture", "--exact",
+                        "quantity::verif_dump_table::verif_dump_table"],
+                       cwd=kdir, env=env_offline(target_dir + "-native"), capture_output=True, text=True, timeout=1200)
+    m = re.search(r"VERIF_TABLE\[(.*)\]", p.stdout)
+    if not m:
+        raise vgen.GenError("native run of FractionLookupTable::new() failed: " + (p.stderr[-600:] or p.stdout[-600:]))
+    return m.group(1)
+
+
+CHECK = re.compile(r"^Check (\d+): (\S+)\n\t - Status: (\w+)\n\t - Description: \"(.*?)\"\n\t - Location: (.*?)$", re.M)
+
+
+def run_harness(kdir, target_dir, h, extra=()):
+    cmd = ["cargo", "kani", "-p", "cooklang"] + KANI_FLAGS + ["--harness", h["name"]] + list(extra)
+    t0 = time.time()
+    try:
+        p = subprocess.run(cmd, cwd=kdir, env=env_offline(target_dir), capture_output=True, text=True, timeout=h["timeout"])
+        out, rc = p.stdout + "\n" + p.stderr, p.returncode
+        timed_out = False
+    except subprocess.TimeoutExpired as e:
+        out = ((e.stdout or b"").decode(errors="replace") if isinstance(e.stdout, bytes) else (e.stdout or ""))
+        rc, timed_out = 124, True
+        subprocess.run("pkill -f 'cbmc.*" + re.escape(h["name"]) + "' || true", shell=True)
+    wall = time.time() - t0
+    r = {"name": h["name"], "cmd": " ".join(cmd), "rc": rc, "wall_s": round(wall, 1), "timed_out": timed_out, "out_tail": out[-3000:]}
+    checks = [{"id": m.group(1), "name": m.group(2), "status": m.group(3), "desc": m.group(4), "loc": m.group(5)} for m in CHECK.finditer(out)]
+    r["n_checks"] = len([c for c in checks if c["status"] in ("SUCCESS", "FAILURE")])
+    r["n_ok"] = len([c for c in checks if c["status"] == "SUCCESS"])
+    r["failed"] = [c for c in checks if c["status"] == "FAILURE"]
+    m = re.search(r"Verification Time: ([0-9.]+)s", out)
+    r["time_s"] = float(m.group(1)) if m else None
+    m = re.search(r"\*\* (\d+) of (\d+) cover properties satisfied", out)
+    r["cover"] = (int(m.group(1)), int(m.group(2))) if m else None
+    r["verdict"] = "SUCCESSFUL" if "VERIFICATION:- SUCCESSFUL" in out else ("FAILED" if "VERIFICATION:- FAILED" in out else "NONE")
+    return r
+
+
+def playback(kdir, target_dir, h, um):
+    """Kani concrete playback: generate the unit test for the counterexample in place and run it natively."""
+    cmd = ["cargo", "kani", "-p", "cooklang"] + KANI_FLAGS + ["-Z", "concrete-playback", "--concrete-playback=inplace", "--harness", h["name"]]
+    try:
+        p = subprocess.run(cmd, cwd=kdir, env=env_offline(target_dir), capture_output=True, text=True, timeout=h["timeout"])
+    except subprocess.TimeoutExpired:
+        return {"reproduced": False, "note": "timeout while generating the concrete playback test"}
+    src = open(os.path.join(kdir, um["file"])).read()
+    tests = re.findall(r"fn (kani_concrete_playback_" + re.escape(h["name"]) + r"_\w+)\(\)", src)
+    if not tests:
+        return {"reproduced": False, "note": "Kani produced no concrete playback test", "tail": (p.stdout + p.stderr)[-800:]}
+    tname = tests[-1]
+    m = re.search(r"(#\[test\]\s*fn " + re.escape(tname) + r"\(\).*?\n\})", src, re.S)
+    test_src = m.group(1) if m else ""
+    cmd2 = ["cargo", "kani", "playback", "-p", "cooklang", "-Z", "concrete-playback", "--", tname]
+    try:
+        q = subprocess.run(cmd2, cwd=kdir, env=env_offline(target_dir + "-playback"), capture_output=True, text=True, timeout=1500)
+    except subprocess.TimeoutExpired:
+        return {"reproduced": False, "note": "timeout in native playback", "test": test_src}
+    out = q.stdout + q.stderr
+    pan = re.findall(r"panicked at ([^\n]*)\n([^\n]*)", out)
+    failed = ("test result: FAILED" in out) or bool(pan)
+    return {"reproduced": bool(failed), "test": test_src, "panic": [f"{a} {b}".strip() for a, b in pan][:3],
+            "cmd": " ".join(cmd2), "tail": out[-1200:]}
+
+
 def run_kani_group(root, plan, names, snap, sd, prop, tier):
-    return []
+    """names: kani unit names.  Returns one result dict per unit."""
+    kdir = os.path.join(sd, "kani_repo")
+    subprocess.run(["rsync", "-a", "--delete", snap.rstrip("/") + "/", kdir + "/"], check=True)
+    # the scratch copy is verified as a single crate (bindings/playground/fuzz are not part of any unit)
+    ct = os.path.join(kdir, "Cargo.toml")
+    s = open(ct).read()
+    s = re.sub(r"members\s*=\s*\[[^\]]*\]", 'members = ["."]', s)
+    open(ct, "w").write(s)
+    target_dir = os.environ.get("VERIF_KANI_TARGET", os.path.join(root, ".cache", "kani-target"))
+    os.makedirs(target_dir, exist_ok=True)
+    results = {}
+    units = {}
+    vgen._index_cache.clear()
+    for u in names:
+        cfg = plan["kani_units"][u]
+        um = parse_unit(os.path.join(root, cfg["template"]))
+        units[u] = um
+        r = {"unit": u, "engine": "kani", "undecided": [], "failures": [], "harnesses": [], "log": [],
+             "trusted": list(cfg.get("trusted", [])), "verification_s": 0.0, "cmd": ""}
+        results[u] = r
+        try:
+            if um["native_table"]:
+                lit = native_table(kdir, target_dir)
+                um["text"] = um["text"].replace("/*@NATIVE_TABLE@*/", lit)
+                r["native_table"] = lit
+            weave(root, u, um, kdir, r["log"])
+        except (vgen.GenError, subprocess.TimeoutExpired) as e:
+            r["undecided"].append({"reason": "weave", "messages": [str(e)]})
+    # one build first (so that the parallel harness runs only do CBMC work)
+    todo = []
+    for u, um in units.items():
+        if results[u]["undecided"]:
+            continue
+        for h in um["harnesses"]:
+            if h.get("tier") == "thorough" and tier != "thorough":
+                continue
+            if prop not in h["tags"]:
+                continue
+            todo.append((u, h))
+    if todo:
+        b = subprocess.run(["cargo", "kani", "-p", "cooklang", "--only-codegen"] + KANI_FLAGS, cwd=kdir, env=env_offline(target_dir),
+                           capture_output=True, text=True)
+        if b.returncode != 0:
+            msg = (b.stderr or b.stdout)[-1500:]
+            for u in units:
+                results[u]["undecided"].append({"reason": "kani-build-failed", "messages": [msg]})
+            return list(results.values())
+    with cf.ThreadPoolExecutor(max_workers=MAX_PAR) as ex:
+        futs = {ex.submit(run_harness, kdir, target_dir, h): (u, h) for u, h in todo}
+        for f in cf.as_completed(futs):
+            u, h = futs[f]
+            r = results[u]
+            hr = f.result()
+            rec = {"name": h["name"], "file": units[u]["file"], "target": h.get("target", ""), "tags": h["tags"],
+                   "level": "bounded" if h.get("level") == "bounded" else "proof", "bound": h.get("bound"),
+                   "checks": hr["n_checks"], "checks_ok": hr["n_ok"], "time_s": hr["time_s"], "wall_s": hr["wall_s"],
+                   "status": hr["verdict"], "cmd": hr["cmd"]}
+            r["cmd"] = hr["cmd"]
+            r["verification_s"] += hr["time_s"] or 0.0
+            real_fail = [c for c in hr["failed"] if "unwinding assertion" not in c["desc"]]
+            unwind_fail = [c for c in hr["failed"] if "unwinding assertion" in c["desc"]]
+            if hr["timed_out"]:
+                r["undecided"].append({"reason": "kani-timeout", "messages": [f"{h['name']} after {h['timeout']} s"]})
+                rec["status"] = "timeout"
+            elif hr["verdict"] == "NONE":
+                r["undecided"].append({"reason": "kani-no-verdict", "messages": [h["name"] + ": " + hr["out_tail"][-600:]]})
+                rec["status"] = "no-verdict"
+            elif real_fail:
+                pb = playback(kdir, target_dir, h, units[u])
+                for c in real_fail[:4]:
+                    in_harness = "verif_kani" in c["loc"] or "verif_kani" in c["name"]
+                    kind = "post" if in_harness else ("overflow" if "overflow" in c["desc"] else "panic")
+                    line = re.search(r":(\d+):\d+", c["loc"])
+                    if line and not in_harness:
+                        ln = int(line.group(1))
+                        for a, b, o in units[u].get("linemap", []):
+                            if a <= ln <= b:
+                                c["loc"] = c["loc"] + f" [lifted closure; repository line {o + (ln - a)}]"
+                                line = re.search(r"()(?:)repository line (\d+)", c["loc"])
+                                line = re.search(r"repository line ()(\d+)", c["loc"])
+                    r["failures"].append({
+                        "obligation": f"{units[u]['file']}::{h.get('target', h['name'])}::{kind}@{(line.group(line.lastindex) if line else 0)}[{h['name']}]",
+                        "kind": kind, "fn": f"{units[u]['file']}::{h.get('target', '')}", "fn_tags": h["tags"], "tags": h["tags"],
+                        "message": c["desc"], "clause": c["name"], "at": {"loc": c["loc"]}, "code": c["desc"],
+                        "rendered": hr["out_tail"][-1500:], "witness": pb.get("test"), "native_replay": pb, "in_template": False})
+            elif unwind_fail:
+                r["undecided"].append({"reason": "kani-unwinding-bound-too-small", "messages": [h["name"]]})
+                rec["status"] = "unwind"
+            elif hr["cover"] is not None and hr["cover"][0] != hr["cover"][1]:
+                r["undecided"].append({"reason": "vacuous-harness (cover not satisfied)", "messages": [h["name"]]})
+                rec["status"] = "vacuous"
+            r["harnesses"].append(rec)
+    return list(results.values())
+
+
 def replay_file(path, repo, sd):
-    print("replay: not implemented yet")
-    return 2
+    d = json.load(open(path))
+    print(json.dumps({k: d.get(k) for k in ("property", "obligation", "message", "at")}, indent=1))
+    nr = d.get("native_replay") or {}
+    if d.get("witness"):
+        print("--- counterexample (Kani concrete playback test) ---")
+        print(d["witness"])
+        print("--- native replay result recorded by the check ---")
+        print(json.dumps({k: nr.get(k) for k in ("reproduced", "panic", "cmd")}, indent=1))
+        return 1 if nr.get("reproduced") else 2
+    print("--- verifier output ---")
+    print(d.get("verifier_output") or "")
+    print("no-failing-input-found: the verifier (Verus) gives no model; the obligation above is the violation")
+    return 1
